@@ -297,6 +297,11 @@ def run(ctx):
     pr = ctx.proof("theories/Props/C17.v")
     nprog = 12 if ctx.quick() else 80
     progs = hist.programs(ctx, nprog)
+    # LIST programs (see the module docstring): a random stream of its own; the first few generated ones also go
+    # through the explored lock-step below (appended: the draws for the programs above are unchanged)
+    lsub = _Sub(getattr(ctx, "seed", 0) * 1000003 + 29)
+    lprogs = list_programs(lsub.rng, 60 if ctx.quick() else 400)
+    progs += [p for p in lprogs if p["generated"]][: (4 if ctx.quick() else 20)]
     trees = hist.explore_tree(exe, progs, depth=3, max_paths=20)
     depth, maxp = (2, 12) if ctx.quick() else (4, 40)
     cases, meta = [], {}
@@ -423,9 +428,7 @@ def run(ctx):
     n_checked += fchecked
     ctx.coverage["reset_after_reported_fault"] = dict(programs=len(fprogs), cases=len(fcases), compared=fchecked,
                                                       with_fault_before_reset=ffaulted)
-    # LIST programs (see the module docstring): a random stream of its own
-    lsub = _Sub(getattr(ctx, "seed", 0) * 1000003 + 29)
-    lprogs = list_programs(lsub.rng, 60 if ctx.quick() else 400)
+    # LIST programs: history (+ jump), RESET, second play  vs  fresh, second play
     lcases, lmeta = list_cases(lsub, exe, lprogs, ctx.quick())
     lres = {r["id"]: r for r in vlib.run_inkdrive(lcases, exe)}
     lfails, lchecked, lorig = list_lockstep(lcases, lmeta, lres)
